@@ -317,6 +317,34 @@ def run_case(case, ctx):
                     if got3 != (want, want):
                         oracle.append("%s: id %s, its state point hashes to %s; md5 of the canonical text of %r = %s" % (
                             name, got3[0], got3[1], v, want))
+                # the value as a PART of a state point: a nested synced collection (a sub-mapping of a document, read
+                # by this session BEFORE another session replaced it; a sub-mapping of another job's state point)
+                want_w = ref_id({"w": v})
+                nested = {}
+                if stored:
+                    try:
+                        p3.document = {"w": {"stale": 0}}
+                        f4 = signac.Project(d3)
+                        child = f4.document["w"]
+                        dict(child)                       # loaded now, with the old content
+                        signac.Project(d3).document = {"w": v}
+                        nested["open_job({'w': <sub-mapping of a document that another session has replaced since>})"] = (
+                            lambda: f4.open_job({"w": child}))
+                    except Exception:  # noqa: BLE001
+                        pass
+                wrapped = signac.Project(d3).open_job({"w": v}).init()
+                f5 = signac.Project(d3)
+                nested["open_job({'w': <sub-mapping of another job's state point>})"] = (
+                    lambda: f5.open_job({"w": f5.open_job(id=wrapped.id).sp["w"]}))
+                for name, fn in nested.items():
+                    try:
+                        j3 = fn()
+                        got3 = (j3.id, calc_id(j3.statepoint()))
+                    except Exception as e:
+                        got3 = ("EXC:" + exc_name(e),) * 2
+                    if got3 != (want_w, want_w):
+                        oracle.append("%s: id %s, its state point hashes to %s; md5 of the canonical text of %r = %s" % (
+                            name, got3[0], got3[1], {"w": v}, want_w))
                 tags.append("synced-spelling=%s" % stored)
                 # "in every session": a session that re-keyed a job it had opened by id must still hand out the OLD
                 # id with the old value once that job exists again (created by another session)
